@@ -320,8 +320,97 @@ func init() {
 				}
 			}
 		}
-		fmt.Fprintf(&b, "(* doSeq ends with `return p.doSeq(rn)` after appending the created element (unbounded retry) *)\n")
+		fmt.Fprintf(&b, "(* doSeq ends with `return p.doSeq(rn)` after appending the created element *)\n")
 		fmt.Fprintf(&b, "Definition gen_match_doseq_retries : bool := %s.\n", coqBool(retries))
+		// the retry is guarded: `if p.appended { return nil, <error> }` followed by `p.appended = true`
+		guarded := false
+		for i, st := range fd.Body.List {
+			is, ok := st.(*ast.IfStmt)
+			if !ok || is.Init != nil || is.Else != nil {
+				continue
+			}
+			sel, ok := is.Cond.(*ast.SelectorExpr)
+			if !ok || sel.Sel.Name != "appended" || len(is.Body.List) == 0 {
+				continue
+			}
+			rs, ok := is.Body.List[len(is.Body.List)-1].(*ast.ReturnStmt)
+			if !ok || len(rs.Results) != 2 {
+				continue
+			}
+			if id, ok := rs.Results[0].(*ast.Ident); !ok || id.Name != "nil" {
+				continue
+			}
+			if i+1 < len(fd.Body.List) {
+				if as, ok := fd.Body.List[i+1].(*ast.AssignStmt); ok && len(as.Lhs) == 1 && len(as.Rhs) == 1 {
+					l, okl := as.Lhs[0].(*ast.SelectorExpr)
+					r, okr := as.Rhs[0].(*ast.Ident)
+					if okl && okr && l.Sel.Name == "appended" && r.Name == "true" {
+						guarded = true
+					}
+				}
+			}
+		}
+		fmt.Fprintf(&b, "(* the retry happens at most once: a second search that finds nothing is an error (`if p.appended { return nil, err }; p.appended = true`) *)\n")
+		fmt.Fprintf(&b, "Definition gen_match_doseq_guarded : bool := %s.\n\n", coqBool(guarded))
+
+		// ---- replacement.getRefinedValue: is the source node copied when no delimiter is given?
+		_, f, err = c10ParseFile(filepath.Join(repo, "api/filters/replacement/replacement.go"))
+		if err != nil {
+			return "", err
+		}
+		fd = c10FindFunc(f, "getRefinedValue", "")
+		if fd == nil {
+			return "", fmt.Errorf("getRefinedValue not found")
+		}
+		copied, recognised := false, false
+		if len(fd.Body.List) > 0 {
+			if is, ok := fd.Body.List[0].(*ast.IfStmt); ok && len(is.Body.List) > 0 {
+				if rs, ok := is.Body.List[len(is.Body.List)-1].(*ast.ReturnStmt); ok && len(rs.Results) == 2 {
+					switch x := rs.Results[0].(type) {
+					case *ast.Ident:
+						recognised = x.Name == "rn"
+					case *ast.CallExpr:
+						if sel, ok := x.Fun.(*ast.SelectorExpr); ok && sel.Sel.Name == "Copy" {
+							if id, ok := sel.X.(*ast.Ident); ok && id.Name == "rn" {
+								copied, recognised = true, true
+							}
+						}
+					}
+				}
+			}
+		}
+		fmt.Fprintf(&b, "(* getRefinedValue without a delimiter returns rn.Copy() (true) or the live node rn (false) *)\n")
+		fmt.Fprintf(&b, "Definition gen_replacement_source_copied : bool := %s.\n", coqBool(copied))
+		fmt.Fprintf(&b, "Definition gen_replacement_source_return_recognised : bool := %s.\n\n", coqBool(recognised))
+
+		// ---- ImageTagTransformer.Transform: do the legacy filter and the field-spec filter share a Visited set?
+		_, f, err = c10ParseFile(filepath.Join(repo, "api/internal/builtins/ImageTagTransformer.go"))
+		if err != nil {
+			return "", err
+		}
+		fd = c10FindFunc(f, "Transform", "ImageTagTransformerPlugin")
+		if fd == nil {
+			return "", fmt.Errorf("ImageTagTransformerPlugin.Transform not found")
+		}
+		nVisited, nApply := 0, 0
+		ast.Inspect(fd.Body, func(n ast.Node) bool {
+			switch x := n.(type) {
+			case *ast.KeyValueExpr:
+				if id, ok := x.Key.(*ast.Ident); ok && id.Name == "Visited" {
+					if v, ok := x.Value.(*ast.Ident); ok && v.Name == "visited" {
+						nVisited++
+					}
+				}
+			case *ast.CallExpr:
+				if sel, ok := x.Fun.(*ast.SelectorExpr); ok && sel.Sel.Name == "ApplyFilter" {
+					nApply++
+				}
+			}
+			return true
+		})
+		fmt.Fprintf(&b, "(* ImageTagTransformerPlugin.Transform: number of ApplyFilter calls, and whether both filters get the same `Visited: visited` *)\n")
+		fmt.Fprintf(&b, "Definition gen_image_transform_filters : nat := %d.\n", nApply)
+		fmt.Fprintf(&b, "Definition gen_image_transform_shares_visited : bool := %s.\n", coqBool(nVisited == 2 && nApply == 2))
 		return b.String(), nil
 	})
 }
